@@ -31,9 +31,10 @@ FIXED in /repo by 50aef2b9 (was: OPEN after b5fb93b8): perChannelWriter.Add = ge
  code by cwClosedWriterCheck (two halves of Add through the shim) and the Add-versus-delWriter stress loop, signature
  `cw:add-into-closed-writer:orphan-flush`; `git revert 50aef2b9` turns ./check C13 red with that signature.
 
-OPEN on HEAD (evidence coverage.resub_inflight_probe, reproduced on a real client with natural gates; model
-resub_inflight_witness.cfg: GetWriter; Del; WAdd(refused); Retry; WAdd; Resub; TimerFire violates GenBracket; NOT a verdict
-until the lead decides fix / known finding; suggested signature `resub:inflight-broadcast-into-new-subscription`):
+KNOWN FINDING on HEAD (known_findings.json, signature `resub:inflight-broadcast-into-new-subscription:plain|pos`; harness
+cwClientResubInflight, a verdict on real frames with natural gates; model resub_inflight_witness.cfg: GetWriter; Del;
+WAdd(refused); Retry; WAdd; Resub; TimerFire violates GenBracket).  Distinct from `resub:old-publication-in-new-subscription`
+(seed C13-2: a publication buffered BEFORE the unsubscribe survives because the first delWriter site is missing):
  subscribe (generation 1); a broadcast passes the subscribed check (parked in LogHandler "-out->"); server-side Unsubscribe
  deletes c.channels[ch] + delWriter and is parked at Broker.PublishLeave (before removeSubscription); the broadcast is
  released: its Add re-creates the channel writer and buffers the push; the client subscribes again (reply 2; hub.addSub could
@@ -237,7 +238,7 @@ def c13(c):
     c.cov['traces_validated_against_impl'] += st['completed']
     c.cov['distinct_nontrivial'] += st['nontrivial']
     c.cov['stress_counters'] = st['counters']
-    for k in ('closed_writer_check', 'resub_inflight_probe', 'batching_off_probe'):
+    for k in ('closed_writer_check', 'batching_off_probe'):
         c.cov[k] = (rr.get('extra') or {}).get(k)
     c.cov['race_unit_witness'] = (rr.get('extra') or {}).get('unit_witness')
     c.cov['cfg_change_probe'] = (rr.get('extra') or {}).get('cfg_change_probe')
